@@ -135,13 +135,13 @@ def coq_build(pid: str, extra_targets=(), runner=True, jobs=16) -> BuildResult:
                 os.remove(props[:-2] + suffix)
             except OSError:
                 pass
-        rc, out = _run(["timeout", "1500", "make", "-j%d" % jobs] + targets, cwd=COQ)
+        rc, out = _run(["timeout", "1500", "make", "-k", "-j%d" % jobs] + targets, cwd=COQ)
         br.log = out
         text = open(props, encoding="utf-8").read()
         br.theorems = re.findall(r"^\s*(?:Theorem|Lemma|Example|Corollary)\s+([A-Za-z0-9_']+)", text, re.M)
         br.obligations = len(br.theorems)
         if rc != 0:
-            m = re.search(r'File "\./([^"]+)", line (\d+)', out)
+            m = re.search(r'File "\./([^"]+)", line (\d+), characters [^\n]*\nError', out)
             where = "unknown"
             if m:
                 f, line = m.group(1), int(m.group(2))
